@@ -334,6 +334,10 @@ def unit_corpus(a):
         for t in ("Feature: f\n Scenario: s\n  Given x" + ch, "Feature: f\n Scenario: s\n  Given x\n" + ch, "Feature: f\n Scenario: s\n  Given x\n" + ch + "\n", "Feature: f\n# c" + ch, ch + "Feature: f\n",
                   "Feature: f\n Scenario: s\n  Given x\n   | a" + ch + " |" + ch):
             cases.append({"sub": "layout", "text": t, "label": "end-of-text-characters", "choices": [5] * 24})
+    from .magnitude import transition_documents
+    for i, (n, t) in enumerate(transition_documents(accepted_only=False)):
+        if i % 3 == a["seed"] % 3:
+            cases.append({"sub": "layout", "text": t, "label": "transition:" + n, "choices": [2] * 24})
     from .c17 import large_sources
     cases.append({"sub": "layout", "text": large_sources()[0], "label": "large-non-ascii-file", "choices": [1] * 24})
     cases.append({"sub": "layout", "text": "\ufeffFeature: bom\n Scenario: s\n  Given x\n", "label": "bom", "choices": [2] * 24})
